@@ -482,7 +482,7 @@ def precip_near_cases(draw, salts=(0, 1, 2, 3)):
 # ---------------------------------------------------------------------------------------------------------------
 # C08: series / grid solves (EqSystem.roots, EqSystem.solve(init_concs, varied))
 # ---------------------------------------------------------------------------------------------------------------
-SERIES_ROOTS_CHAINS = ["default", "loglin", "lin"]
+SERIES_ROOTS_CHAINS = ["default", "loglin", "lin", "linrel", "loglinrel"]     # linrel = (NumSysLinRel,), loglinrel = (Log, LinRel)
 
 
 class ModelSeries(Model08):
@@ -608,4 +608,36 @@ def c08_option_cases(draw):
     body["opts"] = opts
     if with_x0:
         body["x0"] = _x0_spec(draw, body, ["scaled", "random"])
+    return body
+
+
+# ---------------------------------------------------------------------------------------------------------------
+# C08: one solver object serving several initial states (the `neqsys=` argument of EqSystem.root)
+# ---------------------------------------------------------------------------------------------------------------
+REUSE_CHAINS = ["linrel", "loglinrel", "default", "loglin", "lin"]
+
+
+class ModelReuse(Model08):
+    """Model08 (= state 0) plus 1-2 further initial states of the same species: `more` = [{name: log10 c0 code}, ...]."""
+
+    def __init__(self, case):
+        Model08.__init__(self, case)
+        self.states = [dict(self.c0)]
+        for codes in case["more"]:
+            self.states.append({s: (WATER_CONC if s == "H2O" else 10.0 ** (codes[s] / 1000.0)) for s in self.species})
+
+    def state(self, k):
+        import copy
+        m = copy.copy(self)
+        m.c0 = dict(self.states[k])
+        return m
+
+
+@st.composite
+def c08_reuse_cases(draw):
+    chain = draw(st.sampled_from(REUSE_CHAINS))
+    body = _c08_body(draw, max_eq=3)
+    n_more = draw(st.sampled_from([1, 2]))
+    body["more"] = [{s: _decade_code(draw, [0, 1, 2, 3, 4, 5]) for s in ORDER if s in body["lc0"]} for _ in range(n_more)]
+    body["chain"] = chain
     return body
